@@ -1,11 +1,12 @@
 (* Extraction of the executable models to OCaml.  ExtrOcamlBasic only: bool, option, unit, list,
    prod, sumbool and comparison map to the OCaml types; N, Z, positive and nat stay inductive. *)
 From Coq Require Import Extraction ExtrOcamlBasic ZArith NArith.
-From LV Require Import Model.XorFloat Model.IntResponse Model.EventBuf Model.Server Gen.ServerMap.
+From LV Require Import Model.XorFloat Model.IntResponse Model.EventBuf Model.EventWire Model.Server Gen.ServerMap.
 Extraction Language OCaml.
 Separate Extraction
   BinInt.Z.add BinInt.Z.compare BinNat.N.add
   XorFloat.encode_bytes XorFloat.decode_bytes XorFloat.expected XorFloat.mask_of
   IntResponse.roundtrip
   EventBuf.push_rows
+  EventWire.serialize EventWire.deserialize
   Server.encode_column ServerMap.status_of ServerMap.all_errors.
